@@ -32,7 +32,11 @@ func init() {
 }
 
 var (
-	mdsAccNames   = []string{"A", "B", "C", "D"}
+	mdsAccNames = []string{"A", "B", "C", "D"}
+	// every account has two SPELLINGS: "A" is the lower-case bech32 text (what AccAddress.String()
+	// prints), "A^" the all-upper-case bech32 text of the same bytes.  sdk.AccAddressFromBech32 and
+	// every ValidateBasic accept both; they are different strings that denote the same account.
+	mdsSpell      = []string{"A", "B", "C", "D", "A^", "B^", "C^", "D^"}
 	mdsScopes     = []string{"s1", "s2", "s3"}
 	mdsSessions   = []string{"x1", "x2", "x3"}
 	mdsScopeSpecs = []string{"p1", "p2"}
@@ -84,7 +88,17 @@ func mdsSetup(t *testing.T) *mdsEnv {
 			e.acc[n] = ad.String()
 			e.accAddr[n] = ad
 			e.accSym[ad.String()] = n
-			e.signers = append(e.signers, ad.String())
+			up := strings.ToUpper(ad.String())
+			if got, err := sdk.AccAddressFromBech32(up); err != nil || !got.Equals(ad) {
+				t.Fatalf("upper-case bech32 spelling of %s is not accepted: %v", n, err)
+			}
+			e.acc[n+"^"] = up
+			e.accSym[up] = n + "^"
+		}
+		// every account signs every message, under both spellings (signer/party association in
+		// x/metadata/keeper/signers.go compares the TEXT of the addresses)
+		for _, n := range mdsSpell {
+			e.signers = append(e.signers, e.acc[n])
 		}
 		reg := func(kind string, syms []string) {
 			for i, s := range syms {
@@ -538,6 +552,56 @@ func mdsSubset(r *RNG, xs []string, allowEmpty bool, dupPct int) string {
 	return strings.Join(out, "|")
 }
 
+// mdsOther is the other spelling of the same account ("A" <-> "A^").
+func mdsOther(a string) string {
+	if strings.HasSuffix(a, "^") {
+		return strings.TrimSuffix(a, "^")
+	}
+	return a + "^"
+}
+
+// mdsSp spells an account: mostly the usual lower-case text, sometimes the upper-case one.
+func mdsSp(r *RNG, a string) string {
+	if r.Chance(22) {
+		return mdsOther(a)
+	}
+	return a
+}
+
+// mdsAddrSubset is mdsSubset over the accounts where every chosen account is spelled at random
+// and, now and then, named a second time under its other spelling (a different string: the
+// text-based duplicate checks accept it).
+func mdsAddrSubset(r *RNG, allowEmpty bool, dupPct int) string {
+	l := mdsSubset(r, mdsAccNames, allowEmpty, dupPct)
+	if l == "-" {
+		return l
+	}
+	xs := strings.Split(l, "|")
+	for i := range xs {
+		xs[i] = mdsSp(r, xs[i])
+	}
+	if r.Chance(12) {
+		xs = append(xs, mdsOther(Pick(r, xs)))
+	}
+	return strings.Join(xs, "|")
+}
+
+// mdsRespell keeps the accounts of a stored list and changes the spelling of some of them
+// (at least one): same accounts, different text.
+func mdsRespell(r *RNG, xs []string) string {
+	if len(xs) == 0 {
+		return "-"
+	}
+	out := append([]string{}, xs...)
+	k := r.Intn(len(out))
+	for i := range out {
+		if i == k || r.Chance(25) {
+			out[i] = mdsOther(out[i])
+		}
+	}
+	return strings.Join(out, "|")
+}
+
 // mdsSnap is what the generator looks at to aim ops at existing entries (read from the real keeper).
 type mdsSnap struct {
 	scopes   []string
@@ -546,13 +610,43 @@ type mdsSnap struct {
 	vo       map[string]string
 	sessions [][2]string // scope, session
 	records  [][3]string // scope, session, name
+	spec     map[string]string   // scope -> scope spec
+	cspecs   []string            // stored contract specs
+	csOwners map[string][]string // contract spec -> owners (as spelled in the store)
+	sspecs   []string
+	ssOwners map[string][]string
+	ssCSpecs map[string][]string
 }
 
 func (e *mdsEnv) snapshot() mdsSnap {
-	sn := mdsSnap{owners: map[string][]string{}, da: map[string][]string{}, vo: map[string]string{}}
+	sn := mdsSnap{owners: map[string][]string{}, da: map[string][]string{}, vo: map[string]string{}, spec: map[string]string{},
+		csOwners: map[string][]string{}, ssOwners: map[string][]string{}, ssCSpecs: map[string][]string{}}
+	syms := func(l []string) []string {
+		var out []string
+		for _, a := range l {
+			out = append(out, e.accSym[a])
+		}
+		return out
+	}
+	_ = e.k.IterateContractSpecs(e.ctx, func(cs mdtypes.ContractSpecification) bool {
+		id := e.symU(cs.SpecificationId)
+		sn.cspecs = append(sn.cspecs, id)
+		sn.csOwners[id] = syms(cs.OwnerAddresses)
+		return false
+	})
+	_ = e.k.IterateScopeSpecs(e.ctx, func(sp mdtypes.ScopeSpecification) bool {
+		id := e.symU(sp.SpecificationId)
+		sn.sspecs = append(sn.sspecs, id)
+		sn.ssOwners[id] = syms(sp.OwnerAddresses)
+		for _, c := range sp.ContractSpecIds {
+			sn.ssCSpecs[id] = append(sn.ssCSpecs[id], e.symU(c))
+		}
+		return false
+	})
 	_ = e.k.IterateScopes(e.ctx, func(s mdtypes.Scope) bool {
 		id := e.symU(s.ScopeId)
 		sn.scopes = append(sn.scopes, id)
+		sn.spec[id] = e.symU(s.SpecificationId)
 		for _, p := range s.Owners {
 			sn.owners[id] = append(sn.owners[id], e.accSym[p.Address])
 		}
@@ -589,6 +683,26 @@ func mdsPickSome(r *RNG, xs []string) string {
 	}
 	if len(out) == 0 {
 		out = append(out, Pick(r, xs))
+	}
+	return strings.Join(out, "|")
+}
+
+// mdsPickFew picks one to three of xs.
+func mdsPickFew(r *RNG, xs []string) string {
+	if len(xs) == 0 {
+		return "-"
+	}
+	n := 1 + r.Intn(3)
+	var out []string
+	for i := 0; i < n; i++ {
+		x := Pick(r, xs)
+		dup := false
+		for _, o := range out {
+			dup = dup || o == x
+		}
+		if !dup {
+			out = append(out, x)
+		}
 	}
 	return strings.Join(out, "|")
 }
@@ -630,15 +744,26 @@ func (e *mdsEnv) genOp(r *RNG, boot bool, out *Out) string {
 	}
 	switch k := r.Intn(1000); {
 	case k < 60:
-		return "wcspec " + c + " owners=" + mdsSubset(r, mdsAccNames, r.Chance(4), 8)
+		if aimed && len(sn.cspecs) > 0 && r.Chance(35) {
+			// rewrite a stored contract specification naming the same accounts under other spellings
+			c = Pick(r, sn.cspecs)
+			out.Count("gen:wcspec:respell")
+			return "wcspec " + c + " owners=" + mdsRespell(r, sn.csOwners[c])
+		}
+		return "wcspec " + c + " owners=" + mdsAddrSubset(r, r.Chance(4), 8)
 	case k < 110:
 		return "wrspec " + c + " " + n
 	case k < 170:
-		return "wsspec " + p + " owners=" + mdsSubset(r, mdsAccNames, r.Chance(4), 8) + " cspecs=" + mdsSubset(r, mdsCSpecs, true, 8)
+		if aimed && len(sn.sspecs) > 0 && r.Chance(35) {
+			p = Pick(r, sn.sspecs)
+			out.Count("gen:wsspec:respell")
+			return "wsspec " + p + " owners=" + mdsRespell(r, sn.ssOwners[p]) + " cspecs=" + JoinOr(sn.ssCSpecs[p], "|")
+		}
+		return "wsspec " + p + " owners=" + mdsAddrSubset(r, r.Chance(4), 8) + " cspecs=" + mdsSubset(r, mdsCSpecs, true, 8)
 	case k < 290:
 		vo := "-"
 		if r.Chance(45) {
-			vo = Pick(r, mdsAccNames)
+			vo = mdsSp(r, Pick(r, mdsAccNames))
 		}
 		mills := "0"
 		if r.Chance(30) {
@@ -648,16 +773,28 @@ func (e *mdsEnv) genOp(r *RNG, boot bool, out *Out) string {
 			// the only change is the value owner
 			out.Count("gen:wscope:only-value-owner")
 			return "wscope " + s + " spec=" + p + " owners=" + strings.Join(sn.owners[s], "|") +
-				" da=" + JoinOr(sn.da[s], "|") + " vo=" + Pick(r, mdsAccNames) + " mills=0"
+				" da=" + JoinOr(sn.da[s], "|") + " vo=" + mdsSp(r, Pick(r, mdsAccNames)) + " mills=0"
 		}
-		return "wscope " + s + " spec=" + p + " owners=" + mdsSubset(r, mdsAccNames, r.Chance(3), 4) +
-			" da=" + mdsSubset(r, mdsAccNames, true, 6) + " vo=" + vo + " mills=" + mills
+		if aimed && r.Chance(20) && len(sn.owners[s]) > 0 {
+			// the same scope with the same accounts, some of them under their other spelling
+			out.Count("gen:wscope:respell")
+			owners, da := strings.Join(sn.owners[s], "|"), JoinOr(sn.da[s], "|")
+			if len(sn.da[s]) == 0 || r.Bool() {
+				owners = mdsRespell(r, sn.owners[s])
+			}
+			if len(sn.da[s]) > 0 && r.Bool() {
+				da = mdsRespell(r, sn.da[s])
+			}
+			return "wscope " + s + " spec=" + sn.spec[s] + " owners=" + owners + " da=" + da + " vo=" + vo + " mills=" + mills
+		}
+		return "wscope " + s + " spec=" + p + " owners=" + mdsAddrSubset(r, r.Chance(3), 4) +
+			" da=" + mdsAddrSubset(r, true, 6) + " vo=" + vo + " mills=" + mills
 	case k < 390:
 		name := "-"
 		if r.Chance(75) {
 			name = Pick(r, []string{"sess", "other"})
 		}
-		return "wsess " + s + " " + x + " spec=" + c + " parties=" + mdsSubset(r, mdsAccNames, r.Chance(3), 4) + " name=" + name
+		return "wsess " + s + " " + x + " spec=" + c + " parties=" + mdsAddrSubset(r, r.Chance(3), 4) + " name=" + name
 	case k < 560:
 		spec := "-"
 		if r.Chance(25) {
@@ -696,24 +833,25 @@ func (e *mdsEnv) genOp(r *RNG, boot bool, out *Out) string {
 		return "dscope " + s
 	case k < 745:
 		if aimed {
-			return "addda " + s + " " + mdsPickSome(r, mdsMinus(mdsAccNames, sn.da[s]))
+			// addresses (spellings) not in the list yet: other accounts, or a listed account's other spelling
+			return "addda " + s + " " + mdsPickFew(r, mdsMinus(mdsSpell, sn.da[s]))
 		}
-		return "addda " + s + " " + mdsSubset(r, mdsAccNames, r.Chance(5), 10)
+		return "addda " + s + " " + mdsAddrSubset(r, r.Chance(5), 10)
 	case k < 780:
 		if aimed {
 			return "rmda " + s + " " + mdsPickSome(r, sn.da[s])
 		}
-		return "rmda " + s + " " + mdsSubset(r, mdsAccNames, r.Chance(5), 10)
+		return "rmda " + s + " " + mdsAddrSubset(r, r.Chance(5), 10)
 	case k < 815:
 		if aimed {
-			return "addown " + s + " " + mdsPickSome(r, mdsMinus(mdsAccNames, sn.owners[s]))
+			return "addown " + s + " " + mdsPickFew(r, mdsMinus(mdsSpell, sn.owners[s]))
 		}
-		return "addown " + s + " " + mdsSubset(r, mdsAccNames, r.Chance(5), 10)
+		return "addown " + s + " " + mdsAddrSubset(r, r.Chance(5), 10)
 	case k < 850:
 		if aimed {
 			return "rmown " + s + " " + mdsPickSome(r, sn.owners[s])
 		}
-		return "rmown " + s + " " + mdsSubset(r, mdsAccNames, r.Chance(5), 10)
+		return "rmown " + s + " " + mdsAddrSubset(r, r.Chance(5), 10)
 	case k < 885:
 		if aimed {
 			var withVO []string
@@ -760,21 +898,27 @@ func (e *mdsEnv) genOp(r *RNG, boot bool, out *Out) string {
 // mdsBootstrap: a prefix that builds the specification tree and one scope so that the rest of
 // the history mostly operates on existing entries.
 func mdsBootstrap(r *RNG) []string {
+	sp := func(a string) string { return mdsSp(r, a) }
 	ops := []string{
-		"wcspec c1 owners=A", "wcspec c2 owners=A|B",
+		"wcspec c1 owners=" + sp("A"), "wcspec c2 owners=" + sp("A") + "|" + sp("B"),
 		"wrspec c1 n1", "wrspec c1 n2", "wrspec c2 n1", "wrspec c2 n3",
-		"wsspec p1 owners=A cspecs=c1|c2",
+		"wsspec p1 owners=" + sp("A") + " cspecs=c1|c2",
 	}
 	if r.Bool() {
-		ops = append(ops, "wsspec p2 owners=B|C cspecs=c1")
+		ops = append(ops, "wsspec p2 owners="+sp("B")+"|"+sp("C")+" cspecs=c1")
 	}
-	ops = append(ops, "wscope s1 spec=p1 owners=A|B da=C vo="+Pick(r, []string{"-", "D", "A"})+" mills="+Pick(r, []string{"0", "25"}))
-	if r.Bool() {
-		ops = append(ops, "wscope s2 spec=p1 owners=B da=- vo=- mills=0")
+	da := sp("C")
+	if r.Chance(20) {
+		// an owner is also named in the data-access list, under its other spelling
+		da += "|" + Pick(r, []string{"A^", "B^"})
 	}
-	ops = append(ops, "wsess s1 x1 spec=c1 parties=A name=sess")
+	ops = append(ops, "wscope s1 spec=p1 owners=A|"+sp("B")+" da="+da+" vo="+Pick(r, []string{"-", "D", "A", "D^"})+" mills="+Pick(r, []string{"0", "25"}))
 	if r.Bool() {
-		ops = append(ops, "wsess s1 x2 spec=c1 parties=B name=other")
+		ops = append(ops, "wscope s2 spec=p1 owners="+sp("B")+" da=- vo=- mills=0")
+	}
+	ops = append(ops, "wsess s1 x1 spec=c1 parties="+sp("A")+" name=sess")
+	if r.Bool() {
+		ops = append(ops, "wsess s1 x2 spec=c1 parties="+sp("B")+" name=other")
 	}
 	if r.Bool() {
 		ops = append(ops, "wrec s1 x1 n1 spec=-")
@@ -791,6 +935,9 @@ func driveMdStore(t *testing.T, rng *RNG, n int, out *Out) {
 			res := e.exec(op)
 			kind := strings.Fields(op)[0]
 			out.Count("op:" + kind)
+			if strings.Contains(op, "^") {
+				out.Count("gen:spelling:upper-case:" + kind)
+			}
 			out.Count("res:" + strings.Fields(res)[0])
 			out.Count("res:" + kind + ":" + strings.Fields(res)[0])
 			out.Emit(op, res)
